@@ -74,6 +74,7 @@ SENSITIVITY = [
     "sycamore: swap+zz inner rzz angle sign",
     "three-qubit identity shortcut with default rtol (reverts f29c081)",
     "kak_vector face window with default rtol (reverts 632d107)",
+    "cleanup pass ignores the caller's atol (reverts f3190e3)",
 ]
 
 
